@@ -382,10 +382,20 @@ func HarnessC06GRPCHTTPStatus() {
 	status := nondetInt("status")
 	assume(status >= 0 && status <= 999 && status != 200)
 	body := nondetBytes("body", 2)
-	err := c06GRPCCall(web, status, c06GRPCHeader(web), http.Header{}, body)
+	header := c06GRPCHeader(web)
+	// a proxy or a confused server may still put a grpc-status on it
+	statusHeader := []string{"", "0", "00", "5"}[nondetChoice("grpcStatusHeader", 4)]
+	if statusHeader != "" {
+		header.Set("Grpc-Status", statusHeader)
+	}
+	if nondetBool("framedBody") {
+		body = refFrame(0, nil) // a well-formed empty message
+	}
+	err := c06GRPCCall(web, status, header, http.Header{}, body)
 	check(err != nil, "a non-200 gRPC response is never a success")
 	c06CheckSafe(err, "gRPC HTTP status")
-	if err != nil {
+	if err != nil && statusHeader != "5" {
+		// no valid protocol-level error on the response: the HTTP status decides
 		check(CodeOf(err) == refGRPCHTTPToCode(status), "a non-200 gRPC response gets the code derived from the HTTP status")
 	}
 }
